@@ -307,7 +307,7 @@ def run(tier):
             rep.check(covered, "quotes-cover-prefix", repr(pre),
                       "the resolver types texts starting with %r (prefix path) but need_quotes has no matching test: such strings are emitted bare and reload as numbers" % pre,
                       site=nf.span)
-    rep.floor("resolver prefix paths", npre, 2)
+    rep.floor("resolver prefix paths", npre, 1)
     # std parsers mirrored
     rparsers = set()
     for f in (pfc, pf64):
@@ -316,7 +316,7 @@ def run(tier):
                 rparsers |= {x for x in fr["substs"] if x in ("i64", "f64")}
     for p in sorted(rparsers):
         rep.check(p in tests["parsers"], "quotes-mirror-parser", p, "the resolver uses str::parse::<%s> but need_quotes does not" % p, site=nf.span)
-    rep.floor("std parsers used by the resolver", len(rparsers), 2)
+    rep.floor("std parsers used by the resolver", len(rparsers), 1)
 
     emitter_layout(rep, F)
     # (c) float spelling
